@@ -118,6 +118,8 @@ func ParseExpr(s string) (Expr, error) {
 func ParseSource(s string) (Source, error) {
 	p := NewParser(strings.NewReader(s))
 	defer p.Release()
+	// a source is what follows FROM: db.rp.measurement is three identifiers, not one
+	p.s.s.checkDOT = true
 	return p.parseSource(true)
 }
 
@@ -3188,17 +3190,25 @@ func (p *Parser) parseSet() (*SetLiteral, error) {
 		return nil, newParseError(tokstr(tok, lit), []string{"("}, pos)
 	}
 	vals := make(map[interface{}]bool)
+	negative := false
 	for {
 		tok, pos, lit = p.ScanIgnoreWhitespace()
-		if len(lit) != 0 {
+		if tok == STRING {
+			vals[lit] = true // the empty string is a value too
+		} else if len(lit) != 0 {
 			switch tok {
 			case INTEGER, NUMBER:
 				val, _ := strconv.ParseFloat(lit, 64)
+				if negative {
+					val = -val
+				}
 				vals[val] = true
 			default:
 				vals[lit] = true
 			}
 		}
+		// a sign belongs to the number that follows it: (1, -2.5)
+		negative = tok == SUB
 		if tok == RPAREN {
 			break
 		}
@@ -3453,7 +3463,10 @@ func FormatDuration(d time.Duration) string {
 	// Although we accept both "u" and "µ" when reading microsecond durations,
 	// we output with "u", which can be represented in 1 byte,
 	// instead of "µ", which requires 2 bytes.
-	return fmt.Sprintf("%du", d/time.Microsecond)
+	if d%time.Microsecond == 0 {
+		return fmt.Sprintf("%du", d/time.Microsecond)
+	}
+	return fmt.Sprintf("%dns", d)
 }
 
 // parseTokens consumes an expected sequence of tokens.
